@@ -332,7 +332,7 @@ def run(ctx):
     ctx.assumptions += ["binary64 rounding is not modelled in the theorems (ideal reals); the float run of the same definitions is compared with tolerance 2^-36",
                         "infinite box sides are None in the model (equal to ±inf doubles when x is finite)",
                         "nuclear norm: only the optimality condition on implementation outputs is checked (Eigen SVD is an oracle); no theorem",
-                        "tie 1: translate/gen_prox.py (restricted Eigen coefficient-wise expression/statement grammar, ~1000 lines of Python) is trusted "
+                        "tie 1: translate/gen_prox.py (restricted Eigen coefficient-wise expression/statement grammar, ~1800 lines of Python) is trusted "
                         "to translate what it accepts faithfully; it is cross-checked on every run by running the GENERATED definitions at binary64 "
                         "against the implementation (Corr_ProxGen.chk15g); `Some l` bounds are assumed finite"]
     proxgen.translate(ctx)                 # tie 1: regenerate coq/gen/ProxGen.v from core.REPO; status -> ctx.coverage["translator_prox"]
